@@ -175,7 +175,118 @@ class FnBounds:
                 out.append(b.add(a, -1))
             elif pred == "slt":
                 out.append(b.add(a, -1).add(Lin.const(-1)))
-        return out + self.inv_facts + self.and_facts() + self.switch_facts(block) + self.trip_facts(block)
+        return out + self.inv_facts + self.and_facts() + self.switch_facts(block) + self.trip_facts(block) + self.header_phi_facts(block) + self.countdown_facts(block)
+
+    def countdown_facts(self, block):
+        """a top-tested loop that counts a remaining length down: `while (n >= C) { ...; n -= d; }` with C >= d and the head the only exit.
+        By induction over the visits of the head, n0 - d*k >= 0 (n0 >= 0 from the conditions in front of the loop; the back edge is only
+        reached after the test n >= C >= d) - inside the loop and behind it, where k stands for the last visit"""
+        f, A = self.f, self.A
+        cache = getattr(self, "_cdcache", None)
+        if cache is None:
+            cache = self._cdcache = {}
+        out = []
+        for L in f.loops:
+            H = L["header"]
+            if not f.dominates_block(H, block):
+                continue
+            if H not in cache:
+                cache[H] = []
+                be = ir.branch_edges(f, H)
+                if be and list(L.get("exiting", [])) == [H]:
+                    cnd, ts, fs = be
+                    C = f.inst(cnd)
+                    inl = [x for x in (ts, fs) if x in L["blocks"]]
+                    if C is not None and C.op == "icmp" and len(inl) == 1:
+                        pred = C.get("pred")
+                        if inl[0] == fs:
+                            pred = {"eq": "ne", "ne": "eq", "ult": "uge", "uge": "ult", "ugt": "ule", "ule": "ugt"}.get(pred)
+                        a, b_ = A.value(C.ops[0]), A.value(C.ops[1])
+                        if a.constant() is not None and b_.constant() is None:
+                            a, b_ = b_, a
+                            pred = {"ult": "ugt", "ugt": "ult", "ule": "uge", "uge": "ule", "ne": "ne"}.get(pred)
+                        kb = b_.constant()
+                        ksym = ("k", H)
+                        s_ = a.get(ksym, 0)
+                        if kb is not None and s_ < 0 and all(not (isinstance(t_, tuple) and t_[0] == "k") or t_ == ksym for t_ in a):
+                            low = {"uge": kb, "ugt": kb + 1, "ne": 1 if kb == 0 else None}.get(pred)
+                            if low is not None and low >= -s_:
+                                v0 = Lin(a)
+                                v0.pop(ksym)
+                                base = self._ineqs_from(ir.conditions_at(f, H)) + self.inv_facts + self.and_facts()
+                                okb = self._trivially_nonneg(v0) or any(self._trivially_nonneg(v0.add(g, -1)) for g in base) \
+                                    or any(self._trivially_nonneg(v0.add(g, -1).add(h, -1)) for i_, g in enumerate(base) for h in base[i_ + 1:])
+                                if okb:
+                                    cache[H].append(a)
+            out += cache[H]
+        return out
+
+    def header_phi_facts(self, block):
+        """a value merged at a loop head (a remaining length in a bottom-tested loop): when every edge into the head - the guarded entry
+        and the back edge - carries a comparison of the incoming value with a constant, the weakest of them holds for the merged value
+        wherever the head dominates"""
+        f, A = self.f, self.A
+        cache = getattr(self, "_hpcache", None)
+        if cache is None:
+            cache = self._hpcache = {}
+        out = []
+        for L in f.loops:
+            H = L["header"]
+            if not f.dominates_block(H, block):
+                continue
+            if H not in cache:
+                facts = []
+                for iid in f.blocks[H].insts:
+                    P = f.insts[iid]
+                    if P.op != "phi":
+                        break
+                    if (P.get("ty") or "").endswith("*") or not P.bits:
+                        continue
+                    lows, ups = [], []
+                    for inc, pb in P.get("inc"):
+                        iv = A.value(tuple(inc))
+                        lo, hi = None, None
+                        if iv.constant() is not None:
+                            lo = hi = iv.constant()
+                        for c, truth in ir.conditions_on_edge(f, pb, H):
+                            C = f.inst(c)
+                            if C is None or C.op != "icmp":
+                                continue
+                            pred = C.get("pred")
+                            if not truth:
+                                pred = {"eq": "ne", "ne": "eq", "ult": "uge", "uge": "ult", "ugt": "ule", "ule": "ugt"}.get(pred)
+                            a, b_ = A.value(C.ops[0]), A.value(C.ops[1])
+                            if b_.constant() is not None and a == iv:
+                                k = b_.constant()
+                            elif a.constant() is not None and b_ == iv:
+                                k = a.constant()
+                                pred = {"ult": "ugt", "ugt": "ult", "ule": "uge", "uge": "ule", "eq": "eq", "ne": "ne"}.get(pred)
+                            else:
+                                continue
+                            if k < 0:
+                                continue
+                            if pred == "ugt":
+                                lo = max(lo or 0, k + 1)
+                            elif pred == "uge":
+                                lo = max(lo or 0, k)
+                            elif pred == "ne" and k == 0:
+                                lo = max(lo or 0, 1)
+                            elif pred == "ult" and k > 0:
+                                hi = k - 1 if hi is None else min(hi, k - 1)
+                            elif pred == "ule":
+                                hi = k if hi is None else min(hi, k)
+                            elif pred == "eq":
+                                lo, hi = max(lo or 0, k), (k if hi is None else min(hi, k))
+                        lows.append(lo)
+                        ups.append(hi)
+                    pv = A.value(("i", P.id))
+                    if lows and all(x is not None for x in lows) and min(lows) > 0:
+                        facts.append(pv.add(Lin.const(-min(lows))))
+                    if ups and all(x is not None for x in ups):
+                        facts.append(pv.scale(-1).add(Lin.const(max(ups))))
+                cache[H] = facts
+            out += cache[H]
+        return out
 
     def trip_facts(self, block):
         """inside a loop the iteration counter never exceeds ScalarEvolution's backedge-taken count (when that is affine and the loop has
@@ -183,7 +294,8 @@ class FnBounds:
         f, A = self.f, self.A
         out = []
         for L in f.loops:
-            if block not in L["blocks"] or len(L.get("exiting", [])) != 1:
+            # (behind the loop the counter symbol stands for the last visit of the head, which the same count bounds)
+            if not f.dominates_block(L["header"], block) or len(L.get("exiting", [])) != 1:
                 continue
             t = L.get("btc")
             if not t or t.get("k") == "cnc":
